@@ -51,6 +51,9 @@ class _Rearrange(Contract):
     def inv(self, I, env, k):
         st = self._cur
         nf = I.last_filter
+        if not all(env.has(nm) for nm in ('i', 'offset', 'shuffled_seq')):
+            # the invariant speaks about the cursor, the number of fixed positions passed and the output built so far
+            raise Unsupported('the fill loop no longer carries a cursor i, an offset and the output list: its invariant cannot be stated')
         i, off = env['i'], env['offset']
         out = env['shuffled_seq']
         p = i + off
